@@ -20,7 +20,7 @@ OVERRIDES = {
     'Total Capital Cost': ['50', '0', '1000'],
     'Total O&M Cost': ['3', '0', '100'],
     'Well Drilling and Completion Capital Cost': ['7', '0', '200'],
-    'Injection Well Drilling and Completion Capital Cost': ['4'],
+    'Injection Well Drilling and Completion Capital Cost': ['4', '0', '200'],     # bounds: a user figure of 0 is a figure, not "not given"
     'Reservoir Stimulation Capital Cost': ['2', '0'],
     'Surface Plant Capital Cost': ['30', '0'],
     'Field Gathering System Capital Cost': ['1.5', '0'],
